@@ -24,3 +24,44 @@ def engine_of(sim):
     if eng is None or not hasattr(eng, "_processes") or not hasattr(eng, "_state"):
         raise HarnessError("Simulator internals (_engine._processes/_state) not found")
     return eng
+
+
+# ------------------------------------------------------------------------------ state snapshots
+# Used for complete reachable-state exploration (C12/C13): the whole simulation state lives in
+# engine._state.slots (signals: curr/next; memories: data/write_queue). Snapshots are taken and
+# restored only at quiescence (no pending changes, no runnable process).
+
+def _slots(sim):
+    eng = engine_of(sim)
+    st = eng._state
+    if not hasattr(st, "slots") or not hasattr(st, "pending"):
+        raise HarnessError("engine state has no slots/pending")
+    return st
+
+
+def snapshot(sim):
+    st = _slots(sim)
+    if st.pending:
+        raise HarnessError("snapshot taken while changes are pending")
+    out = []
+    for s in st.slots:
+        if hasattr(s, "curr"):
+            out.append(s.curr)
+        elif hasattr(s, "data"):
+            out.append(tuple(s.data))
+        else:
+            raise HarnessError(f"unknown slot type {type(s).__name__}")
+    return tuple(out)
+
+
+def restore(sim, snap):
+    st = _slots(sim)
+    if len(snap) != len(st.slots):
+        raise HarnessError("snapshot does not match the design (slots were added lazily)")
+    for s, v in zip(st.slots, snap):
+        if hasattr(s, "curr"):
+            s.curr = s.next = v
+        else:
+            s.data = list(v)
+            s.write_queue.clear()
+    st.pending.clear()
